@@ -19,4 +19,6 @@ func init() {
 	twin("C01", "close-disjuncts-reordered", "proxy.go", "if req.Close || res.Close || p.Closing() {", "if p.Closing() || res.Close || req.Close {")
 	twin("C01", "errclose-through-local", "proxy.go", "\t\tres.Close = true\n\t\tclosing = errClose\n", "\t\tec := errClose\n\t\tres.Close = true\n\t\tclosing = ec\n")
 	twin("C01", "iscloseable-if-chain", "proxy.go", "\tswitch err {\n\tcase io.EOF, io.ErrClosedPipe, errClose:\n\t\treturn true\n\t}\n", "\tif err == io.EOF || err == io.ErrClosedPipe {\n\t\treturn true\n\t}\n\tif errClose == err {\n\t\treturn true\n\t}\n")
+	mut("C01", "body-dropped-before-roundtrip", "proxy.go", "\t// Not a CONNECT request\n", "\t// Not a CONNECT request\n\tif req.ContentLength == 0 {\n\t\treq.Body = http.NoBody\n\t}\n", "C01.R4", "Body")
+	twin("C01", "remote-addr-via-local", "proxy.go", "\treq.RemoteAddr = conn.RemoteAddr().String()\n", "\tra := conn.RemoteAddr().String()\n\treq.RemoteAddr = ra\n")
 }
